@@ -259,16 +259,46 @@ Lemma np_pop_cells k : forall acc0 s, wfm s -> npo s (pop_cells k acc0 s) T_.
 Proof. induction k as [|k IH]; intros acc0 s W; cbn [pop_cells]; npa. Qed.
 #[export] Hint Resolve np_pop_cells : npk.
 
-Lemma np_cell_builtin_with f :
-  (forall c s, wfm s -> npo s (maybe_put_cell_m c s) V) ->
-  cpok f -> forall s, wfm s -> npo s (cell_builtin f s) V.
+(* the cell a [cell_builtin] function answers is stored by maybe_put_cell: it must be a datum (site 12) *)
+Definition cdat (f : list cell -> out cell) : Prop := forall cs r, f cs = Ok r -> cell_is_datum r = true.
+Lemma cdat_number_string : cdat NumProc.number_string.
 Proof.
-  intros Hput Hf s W. unfold cell_builtin.
+  intros cs r. unfold NumProc.number_string.
+  destruct cs as [|z [|rd [|]]]; try discriminate.
+  - destruct z; try discriminate. destruct (NumProc.number_to_text _ _); cbn [bind]; try discriminate.
+    intros [= <-]. reflexivity.
+  - destruct (NumProc.pop_usize rd); cbn [bind]; try discriminate.
+    destruct z; try discriminate. destruct (NumProc.number_to_text _ _); cbn [bind]; try discriminate.
+    intros [= <-]. reflexivity.
+Qed.
+Lemma cdat_string_to_number p t radix r : NumProc.string_to_number p t radix = Ok r -> cell_is_datum r = true.
+Proof.
+  unfold NumProc.string_to_number. destruct (_ || _); [discriminate|].
+  destruct (NumFmt.parse_with_exactness_p _ _ _ _) as [[n|]| | |]; cbn [bind]; try discriminate; intros [= <-]; reflexivity.
+Qed.
+Lemma cdat_string_number : cdat NumProc.string_number.
+Proof.
+  intros cs r. unfold NumProc.string_number.
+  destruct cs as [|z [|rd [|]]]; try discriminate.
+  - destruct z; try discriminate. apply cdat_string_to_number.
+  - destruct (NumProc.pop_usize rd); cbn [bind]; try discriminate.
+    destruct (_ || _); [discriminate|]. destruct z; try discriminate. apply cdat_string_to_number.
+Qed.
+
+Lemma np_cell_builtin_with f :
+  (forall c s, cell_is_datum c = true -> wfm s -> npo s (maybe_put_cell_m c s) V) ->
+  cpok f -> cdat f -> forall s, wfm s -> npo s (cell_builtin f s) V.
+Proof.
+  intros Hput Hf Hd s W. unfold cell_builtin.
   eapply npost_bind; [npa|]. intros a s1 W1 G1 _. cbv beta.
   eapply npost_bind; [npa|]. intros argc s2 W2 G2 _. cbv beta.
   eapply npost_bind; [npa|]. intros cs s3 W3 G3 _. cbv beta.
-  eapply npost_bind; [apply np_lift; [exact W3|apply Hf]|]. intros r s4 W4 G4 _. cbv beta.
-  apply Hput, W4.
+  pose proof (Hd cs) as Hr. pose proof (Hf cs) as Hk.
+  unfold bindM, lift. destruct (f cs) as [r|e|k|]; cbv beta iota.
+  - apply Hput; [apply Hr; reflexivity|exact W3].
+  - cbn [npost]. split; [exact W3|apply grow_refl].
+  - apply Hk. reflexivity.
+  - exact I.
 Qed.
 
 (* ------------------------------------------------------------------ string.rs *)
@@ -416,7 +446,7 @@ Record num_panics_ok : Prop := {
 }.
 
 Theorem np_pkg_builtin_with :
-  (forall c s, wfm s -> npo s (maybe_put_cell_m c s) V) ->
+  (forall c s, cell_is_datum c = true -> wfm s -> npo s (maybe_put_cell_m c s) V) ->
   num_panics_ok ->
   (forall b s, wfm s -> npo s (lv_builtin b s) V) ->
   forall b s, wfm s -> npo s (pkg_builtin b s) V.
@@ -427,7 +457,8 @@ Proof.
          end;
     lazymatch goal with
     | |- npost _ _ (num_builtin _ _) _ => apply np_num_builtin; [solve [auto]|exact W]
-    | |- npost _ _ (cell_builtin _ _) _ => apply np_cell_builtin_with; [exact Hput|assumption|exact W]
+    | |- npost _ _ (cell_builtin _ _) _ =>
+        apply np_cell_builtin_with; [exact Hput|assumption|first [exact cdat_number_string|exact cdat_string_number]|exact W]
     | |- npost _ _ (lv_builtin _ _) _ => apply Hlv, W
     | |- npost _ _ (Str.string_length _) _ => apply np_string_length, W
     | |- npost _ _ (Str.string_ref _) _ => apply np_string_ref, W
@@ -466,7 +497,7 @@ Proof.
 Qed.
 
 Theorem np_other_builtin_with :
-  (forall c s, wfm s -> npo s (maybe_put_cell_m c s) V) ->
+  (forall c s, cell_is_datum c = true -> wfm s -> npo s (maybe_put_cell_m c s) V) ->
   num_panics_ok ->
   (forall b s, wfm s -> npo s (lv_builtin b s) V) ->
   forall b s, wfm s -> npo s (other_builtin b s) V.
